@@ -208,6 +208,20 @@ CHECKS = {
         note="Trusted: as C04. Bounded: values of at most 1 (quick) / 2 (thorough) nesting steps over 12 atoms.",
         technique="TLA+ type-directed deserialization model checked with TLC over all small values x types; replayed into from_value; validated by TLC",
     ),
+    "C16": dict(
+        category="exploration",
+        text="spec/StackModel.tla models each list-walking operation as a traversal with an explicit stack that iterates along the cdr "
+             "chain and recurses into the car; TLC checks that the deepest stack is bounded by the nesting depth for every list length "
+             "and rejects the as-found variant in which clone, == and the datum span information recurse along the cdr. The model "
+             "yields the operation x shape x builder matrix (24 operations, proper/dotted, parser/constructors/Serde); every cell is "
+             "executed in a child process inside a thread with a fixed 2 MiB stack on a list of 10^6 (thorough: 4*10^6) elements, in "
+             "the release and the debug profile; TLC checks that the whole matrix was covered and every cell survived.",
+        design_ref="DESIGN.md section 6 (C16), section 9",
+        note="The specification contributes least here: a native stack is not a TLA+ state, so the verdict is the observed survival of "
+             "child processes (exploration level). Datums are parsed from a stream because the slice sources compute positions in "
+             "quadratic time.",
+        technique="TLA+ traversal model generating the operation matrix (TLC); each cell observed in a child process on a 2 MiB stack; coverage of the matrix validated by TLC",
+    ),
     "C17": dict(
         category="model_checking",
         text="TLC places every class of UTF-8 byte sequence (valid, overlong, surrogate, out of range, invalid leads, truncated, stray "
